@@ -726,4 +726,6 @@ def build_extra():
     c02.pid = "C06s"
     c02.replay_pid = "C02"
     c02.only_verify = ["Mode.stop"]
-    return [game_stop_set(), C11.mode_controller_set("C06m"), c02, drain_set()]
+    # a player-add request may arrive at any point and the player_adding queue may be held for any time: the turn of a
+    # player who is still being added must not break the handlers of the turn (C11's late-player set PT0 / PT1)
+    return [game_stop_set(), C11.mode_controller_set("C06m"), c02, drain_set(), C11.late_player_set("C06l")]
